@@ -166,7 +166,25 @@ def check(case, rec):
                         from vf.model import split_path
                         for p in ex.channel_paths():
                             g, c = split_path(p)
-                            ok, parts = rec.guard('%s:lazy:chunks' % name, lambda: [x[:] for x in tf[g][c].data_chunks()])
+                            def twice():
+                                # every chunk object is read several times: each access must deliver what the first one did
+                                import numpy as np
+                                out = []
+                                for x in tf[g][c].data_chunks():
+                                    first = x[:]
+                                    keep = first.copy() if isinstance(first, np.ndarray) else list(first)
+                                    for k in (2, 3):
+                                        again = x[:]
+                                        same = (again.tobytes() == keep.tobytes() and again.dtype == keep.dtype) \
+                                            if isinstance(keep, np.ndarray) else list(again) == keep
+                                        if not same:
+                                            raise AssertionError('access %d to the same chunk object delivers %r, the first '
+                                                                 'delivered %r' % (k, again[:3], keep[:3]))
+                                    if len(list(x)) != len(keep):
+                                        raise AssertionError('iterating the chunk delivers %d values, [:] %d' % (len(list(x)), len(keep)))
+                                    out.append(keep)
+                                return out
+                            ok, parts = rec.guard('%s:lazy:chunks' % name, twice)
                             if ok:
                                 for m in compare_parts(ex.objects[p]['type'], ex.values(p), parts,
                                                        '%s chunk stream %s' % (name, p), raw_ts):
